@@ -5,6 +5,7 @@
   tied to the code by the correspondence sub-checks C10fp and C10id).
 -/
 import SoyVerif.Lemmas.MsgNames
+import SoyVerif.Lemmas.MsgDistinct
 
 namespace SoyVerif.Props.C10
 open SoyVerif SoyVerif.Model.Msg
@@ -101,5 +102,56 @@ example : calcID Orders.id ⟨[], [1], [.ph [65] [1], .text [32]]⟩ = calcID Or
   apply id_depends_only_on
   · decide
   · rfl
+
+/-! ## 4. names separate exactly the distinct placeholders -/
+
+theorem mkQueue_getElem_id (ps : List Part) (i : Nat) (hi : i < (mkQueue ps).length) :
+    (mkQueue ps)[i].id = i := by
+  have h := mkQueue_ids ps
+  have hl : i < ((mkQueue ps).map (·.id)).length := by simpa using hi
+  have : ((mkQueue ps).map (·.id))[i] = i := by
+    simp only [h]
+    rw [List.getElem_range']
+    omega
+  simpa using this
+
+/-- FULL: two nodes of a message (placeholders or plurals, at any depth; `i`, `j` are their
+    positions in the processing order) receive the same name if and only if they have the
+    same base name and the same source text.  So distinct representative nodes — a
+    different source text under one base name, or different base names — get distinct
+    names, and equivalent nodes share one. -/
+theorem names_distinct (o : Orders) (ho : o.Valid) (body : List Part) (i j : Nat)
+    (hi : i < (queue body).length) (hj : j < (queue body).length) :
+    (setNames o body).getD i [] = (setNames o body).getD j [] ↔
+      ((queue body)[i].base = (queue body)[j].base ∧ (queue body)[i].src = (queue body)[j].src) := by
+  have nd : ((queue body).map (·.id)).Nodup := mkQueue_ids_nodup _
+  have inv := inv1_step1 _ nd
+  unfold setNames
+  rw [setNamesQ_eq_canon o ho _ nd, canonNames_getD _ _ i hi, canonNames_getD _ _ j hj]
+  have e1 : (queue body)[i].id = i := mkQueue_getElem_id _ i hi
+  have e2 : (queue body)[j].id = j := mkQueue_getElem_id _ j hj
+  have := nameOfId_eq_iff inv nd (List.getElem_mem hi) (List.getElem_mem hj)
+  rw [e1, e2] at this
+  exact this
+
+/-- `names_equiv_same`: reading a node's name through (base name, source text), as the
+    model's `namedBody` does, gives the name Go stored in the node itself. -/
+theorem names_equiv_same (o : Orders) (ho : o.Valid) (body : List Part) (i : Nat)
+    (hi : i < (queue body).length) :
+    nameFor (queue body) (setNames o body) (queue body)[i].base (queue body)[i].src
+      = (setNames o body).getD i [] := by
+  unfold nameFor
+  cases hf : (queue body).findIdx? (fun n => n.base == (queue body)[i].base && n.src == (queue body)[i].src) with
+  | none =>
+    have := List.findIdx?_eq_none_iff.mp hf _ (List.getElem_mem hi)
+    simp at this
+  | some k =>
+    obtain ⟨hk, hp, _⟩ := List.findIdx?_eq_some_iff_getElem.mp hf
+    simp only [Bool.and_eq_true, beq_iff_eq] at hp
+    exact (names_distinct o ho body k i hk hi).mpr hp
+
+/-- non-vacuity: `{$a.x}{$b.x}{$x_1}{$a.x}`: four nodes, three names -/
+example : setNames Orders.id [.ph [88] [1], .ph [88] [2], .ph [88, 95, 49] [3], .ph [88] [1]]
+    = [[88, 95, 50], [88, 95, 51], [88, 95, 49], [88, 95, 50]] := by decide
 
 end SoyVerif.Props.C10
